@@ -174,6 +174,23 @@ func (t *PageTree) traversePageNode(node core.Dict, parent core.Dict) error {
 
 	switch string(typeName) {
 	case "Pages":
+		// Inheritable attributes flow down from every ancestor, not only from the direct
+		// parent: hand the children a copy of this node completed with what it inherits.
+		if parent != nil {
+			merged := make(core.Dict, len(node)+4)
+			for k, v := range node {
+				merged[k] = v
+			}
+			for _, key := range []string{"Resources", "MediaBox", "CropBox", "Rotate"} {
+				if merged.Get(key) == nil {
+					if v := parent.Get(key); v != nil {
+						merged[key] = v
+					}
+				}
+			}
+			node = merged
+		}
+
 		// Intermediate node - traverse children
 		kidsObj := node.Get("Kids")
 		if kidsObj == nil {
